@@ -17,7 +17,7 @@ SPEC = {
                    "with the REAL gotelemetry binary (built by the harness from the scratch copy, XDG_CONFIG_HOME "
                    "redirected); one case line per command with full recursive snapshots before/after, exit status, "
                    "stdout, `gotelemetry env` output and the library's Dir.Mode() afterwards. 20% in-process "
-                   "Dir.SetModeAsOf at a generated date of years 0..9999 + Mode() read-back; 10% Dir.Mode() on generated "
+                   "Dir.SetModeAsOf at a generated instant of years 0..9999 expressed in a generated fixed zone, often near midnight, + Mode() read-back; 10% Dir.Mode() on generated "
                    "mode-file bytes. distinct = distinct case lines; every line is compared with the model, none is trivial"),
     ],
     "technique": "Coq proof over a tree model of the telemetry directory (nested inductive, any depth): exact frame of clean by "
@@ -30,7 +30,8 @@ SPEC = {
                   "unchanged (C19_clean_removes_exactly, _entries_exact, _leaves_no_target, _keeps_mode, _idempotent); any "
                   "sequence of on/local/off leaves every path but <dir>/mode identical (C19_mode_cmd_frame), is a no-op "
                   "when Mode() already reads the requested mode (C19_mode_cmd_noop), otherwise succeeds and reads back as "
-                  "(requested mode, today) for dates of years 0..9999 (C19_mode_cmd_sets, _file_roundtrip, _reports); the "
+                  "(requested mode, today) for dates of years 0..9999 (C19_mode_cmd_sets, _file_roundtrip, _reports), today being the UTC "
+                  "date of the instant in every process time zone (C19_zone_independent, _mode_cmd_records_utc_date); the "
                   "single failing case (mode path is a directory) is characterised and inert (C19_mode_cmd_fails_iff, "
                   "_failure_inert); in mixed histories the mode path evolves as if only mode commands ran and all other "
                   "paths as if only cleans ran (C19_history_*). The executable oracle evaluated on the real snapshots "
@@ -39,7 +40,9 @@ SPEC = {
                   "only by the correspondence suite (real binary, real library). Not modelled: removal failures other than "
                   "a non-empty directory (permissions, files in use on Windows) - the harness runs with sufficient "
                   "permissions; the telemetry directory's own parents (MkdirAll of <config>/go is assumed to succeed); "
-                  "os.UserConfigDir failing (Default unset, mode \"off\"); symlinks are treated as plain entries (the "
+                  "without a user configuration directory (zero Dir) the commands are modelled as touching nothing "
+                  "(cli_run_nodir) and the suite checks that on a decoy tree in the working directory; "
+                  "symlinks are treated as plain entries (the "
                   "harness places them only as leaves of the data directories); the flag package's argument handling. "
                   "`today` of the binary is the machine's UTC date: a step during which the date changes is skipped. "
                   "C19_clean_removes_exactly assumes entry names inside local/ and upload/ are unique (always true of a "
